@@ -415,7 +415,15 @@ pub fn order(r: &mut Rng, max: usize) -> usize {
 
 /// Orders for the algorithm properties: mostly small (dense inputs stay
 /// cheap), sometimes medium, rarely on/over the 64 boundary or large.
+static BIG_CAP: std::sync::atomic::AtomicUsize = std::sync::atomic::AtomicUsize::new(usize::MAX);
+
+/// Upper bound for the large-order strata (slow engines set it low).
+pub fn set_big_cap(cap: usize) {
+    BIG_CAP.store(cap, std::sync::atomic::Ordering::Relaxed);
+}
+
 pub fn algo_order(r: &mut Rng, small_max: usize, big_max: usize) -> usize {
+    let big_max = big_max.min(BIG_CAP.load(std::sync::atomic::Ordering::Relaxed)).max(1);
     match r.below(200) {
         0..=5 => (*r.pick(&[31usize, 32, 33, 63, 64, 65])).min(big_max),
         6..=8 => r.range(66, 130.max(66)).min(big_max),
